@@ -42,6 +42,13 @@ def rules():
     q.exists_bad("classes_of_a_module_share_flexibility", [gm], gm.col("flex") != 1, dm)
     q.exists_bad("classes_of_a_module_share_api_key", [gm], gm.col("keys") != 1, dm)
     q.exists_bad("classes_of_a_module_share_header_schema", [gm], gm.col("headers") != 1, dm)
+    none_key = -(10**9)
+    no_header = ct.code("header", None)
+    payload_path = z3.Or(ct.col("path_type") == ct.code("path_type", "request"), ct.col("path_type") == ct.code("path_type", "response"))
+    q.exists_bad("classes_of_request_and_response_modules_carry_an_api_key_and_a_header_schema", [ct],
+                 z3.And(payload_path, z3.Or(ct.col("api_key") == none_key, ct.col("header") == no_header)), d)
+    q.exists_bad("classes_of_header_and_data_modules_carry_neither", [ct],
+                 z3.And(z3.Not(payload_path), z3.Or(ct.col("api_key") != none_key, ct.col("header") != no_header)), d)
     q.exists_bad("path_version_equals___version__", [ct], ct.col("path_version") != ct.col("version"), d)
     q.exists_bad("path_type_equals___type___of_top_level_class", [ct], z3.And(ct.col("top"), ct.col("path_type") != ct.col("type")), d)
     tops = [r for r in crow if r["top"]]
